@@ -32,8 +32,10 @@ theorem C37_bounded (es : List Ev) :
   ⟨C37_check_every_iteration, (run_inv es {} rfl (Or.inr (Nat.zero_le _))).2⟩
 
 /-- **bounded inside an iteration**: while an iteration runs, the queue of a still-open connection holds
-    at most `limit + k` stream-less frames, `k` = number the processed frame queues (k ≤ 2 for every
-    frame type bfe handles: PING 1, stream error 1, DATA on a closed stream 2, padding refund 1). -/
+    at most `limit + k` stream-less frames, `k` = number the processed frame queues (k ≤ 3 for every
+    frame type bfe handles: PING 1, stream error 1, padding refund 1, DATA on a closed stream 2, DATA on
+    a half-closed stream that still buffers unread octets 3: WINDOW_UPDATE, RST_STREAM, credit of the
+    discarded octets). -/
 theorem C37_bounded_within (es : List Ev) (e : Ev) (h : (runEvs {} es).closed = false) :
     (body (runEvs {} es) e).zero ≤ limit + e.k := by
   have hb := (C37_bounded es).2
@@ -52,6 +54,15 @@ theorem C37_flood_closes (es0 es : List Ev)
     (runEvs (runEvs {} es0) es).closed = true := by
   have hi := run_inv es0 {} rfl (Or.inr (Nat.zero_le _))
   exact flood es _ hi.1 hi.2 hw hstall hsum
+
+/-- **no false close (long normal use)**: if in every iteration the frames already queued plus the ones
+    the processed frame adds stay within the limit — e.g. a client that reads, however many control
+    frames it elicits in total — the connection is never closed by the flood guard.  (A counter that
+    leaked, i.e. was not decremented for some frame kind, would break `C37_counter_exact` and this.) -/
+theorem C37_no_false_close (es : List Ev)
+    (h : ∀ pre e, (pre ++ [e]) <+: es → (runEvs {} pre).zero + e.k ≤ limit) :
+    (runEvs {} es).closed = false :=
+  no_false_close es {} rfl rfl h
 
 /-- closing is final -/
 theorem C37_closed_final (s : St) (es : List Ev) (h : s.closed = true) : (runEvs s es).closed = true :=
